@@ -788,6 +788,44 @@ static void deep_copies(vh_rng* r, int n) {
   src = NULL;
 }
 
+/* ---------- an object referenced from a register only ----------
+** gcc builds on x86-64: r15 is reserved in this translation unit as a global register variable and holds the only
+** reference to a probe object (the dead stack below is scrubbed, the allocation goes through a helper whose frame
+** is gone).  Garbage is allocated until threshold collections have run: the object, and the child only it refers to,
+** are still there.  (r15 is callee-saved: whatever library function is running at the collection either left it alone
+** or saved it in its frame.) */
+#if defined(__GNUC__) && !defined(__clang__) && defined(__x86_64__) && !defined(__SANITIZE_ADDRESS__) && !defined(__SANITIZE_THREAD__)
+#define HAVE_REGISTER_CASE 1
+register var reg_keep asm("r15");
+static void __attribute__((noinline)) reg_make(int64_t id, int64_t child_id) {
+  var p = new(PNode, $I(id));
+  ((struct PNode*)p)->f[0] = new(PNode, $I(child_id));
+  reg_keep = p;
+}
+static void __attribute__((noinline)) reg_scrub(void) { volatile char pad[8192]; for (size_t i = 0; i < sizeof pad; i++) { pad[i] = 0; } }
+static void __attribute__((noinline)) reg_churn(int n) { for (int i = 0; i < n; i++) { var g = new(Int, $I(i)); (void)g; } }
+static void __attribute__((noinline)) register_only_reference(vh_rng* r) {
+  var saved = reg_keep;
+  for (int k = 0; k < 6; k++) {
+    int64_t id = next_id++, child = next_id++;
+    reg_make(id, child);
+    reg_scrub();
+    int64_t d0 = mo_destructed;
+    reg_churn(600 + (int)vh_below(r, 1500));
+    vh_evals(2);
+    if (mo_state[id] != MO_CONSTRUCTED || mo_state[child] != MO_CONSTRUCTED) {
+      vh_violation(K("reachable-object-finalised"), "an object referenced from a callee-saved register only (and the child it refers to): ledger states %d and %d after threshold collections", mo_state[id], mo_state[child]);
+      break;
+    }
+    if (((struct PNode*)reg_keep)->id != id || ((struct PNode*)((struct PNode*)reg_keep)->f[0])->id != child) { vh_violation(K("reachable-object-overwritten"), "the object referenced from a register reads back another id"); break; }
+    if (mo_destructed != d0) { vh_count("register_only_references_that_survived_a_freeing_collection"); }
+    vh_count("register_only_references_checked");
+    reg_keep = NULL;
+  }
+  reg_keep = saved;
+}
+#endif
+
 /* ---------- one case ---------- */
 
 static void reset_world(var* roots) {
@@ -841,6 +879,9 @@ static void __attribute__((noinline)) run_random_case(vh_rng* r, int nops, int h
     if (count_alive() > 700) { for (int k = 0; k < 6; k++) { op_unlink(r); } }
   }
   if (check_c01) { deep_copies(r, 40); }
+#ifdef HAVE_REGISTER_CASE
+  if (check_c01) { register_only_reference(r); }
+#endif
   forced_collection("final forced collection");
   registry_vs_ledger("final");
   if (nops >= 20) { vh_nontrivial(); }
